@@ -7,7 +7,8 @@ CONSTANTS
   Offsets = {0, 1, 2, 3}
   ColMode = "bytes"
   EolEntry = TRUE
+  SymLineMap = "keep"
 INIT Init
 NEXT Next
-INVARIANTS TypeOK WriterIsAdvance SameByte Consecutive RoundTrip EndOfLineMapped SymbolRangeEncloses
+INVARIANTS TypeOK WriterIsAdvance SameByte Consecutive RoundTrip EndOfLineMapped SymbolRangeEncloses SymbolsFound
 CHECK_DEADLOCK FALSE
